@@ -8,6 +8,8 @@ import (
 	"strings"
 	"sync"
 	"testing/synctest"
+
+	"github.com/evstack/ev-node/verifshim/vsync"
 )
 
 // Sched is a cooperative scheduler for real goroutines inside a synctest bubble. Every call into a double is a gate:
@@ -24,13 +26,52 @@ type Sched struct {
 	Trace  []string
 	Steps  int
 	Sends  int // granted gates before sends into the sync loop's input channels
-	off    bool
+	// Interrupt, if set, is asked before every grant; returning true makes Drain return at once with
+	// Interrupted set (the harness stops or restarts the world between two steps of the threads).
+	Interrupt   func() bool
+	Interrupted bool
+	// Virtuals are harness-side actions that take part in scheduling like threads (e.g. delivering a queued event).
+	Virtuals []*Virtual
+	off      bool
+}
+
+// Virtual is a schedulable harness action.
+type Virtual struct {
+	Name    string
+	Enabled func() bool
+	Run     func()
+}
+
+// IsParked tells whether the named thread is parked at a gate (i.e. busy, not idle in a select).
+func (s *Sched) IsParked(name string) bool {
+	s.mu.Lock()
+	defer s.mu.Unlock()
+	_, ok := s.parked[name]
+	return ok
 }
 
 type parkedThr struct {
-	name  string
-	op    string
-	grant chan struct{}
+	name    string
+	op      string
+	grant   chan struct{}
+	enabled func() bool // nil = always; a thread waiting for a lock is enabled only while the lock can be taken
+}
+
+// threads maps goroutine ids of scheduled threads to their scheduler (for the lock shim).
+var threads sync.Map
+
+func init() {
+	vsync.Hook = func(op string, enabled func() bool) int {
+		v, ok := threads.Load(goid())
+		if !ok {
+			return 0
+		}
+		s := v.(*Sched)
+		if !s.gate("lock:"+op, enabled) {
+			return 2
+		}
+		return 1
+	}
 }
 
 func NewSched(choose func(n int, names []string) int) *Sched {
@@ -54,7 +95,9 @@ func (s *Sched) Go(name string, f func()) {
 		s.mu.Lock()
 		s.names[id] = name
 		s.mu.Unlock()
+		threads.Store(id, s)
 		defer func() {
+			threads.Delete(id)
 			s.mu.Lock()
 			delete(s.names, id)
 			s.mu.Unlock()
@@ -75,18 +118,43 @@ func (s *Sched) Off() {
 }
 
 // Gate parks the calling goroutine (if it is a registered thread) until it is granted.
-func (s *Sched) Gate(op string) {
+func (s *Sched) Gate(op string) { s.gate(op, nil) }
+
+// gate returns false when the scheduler is off (the world is being torn down).
+func (s *Sched) gate(op string, enabled func() bool) bool {
 	id := goid()
 	s.mu.Lock()
 	name, ok := s.names[id]
-	if !ok || s.off {
+	if s.off {
 		s.mu.Unlock()
-		return // not a scheduled thread (harness goroutine, helper goroutine): pass through
+		return false
 	}
-	p := &parkedThr{name: name, op: op, grant: make(chan struct{})}
+	if !ok {
+		s.mu.Unlock()
+		return true // not a scheduled thread (harness goroutine, helper goroutine): pass through
+	}
+	p := &parkedThr{name: name, op: op, grant: make(chan struct{}), enabled: enabled}
 	s.parked[name] = p
 	s.mu.Unlock()
 	<-p.grant
+	s.mu.Lock()
+	off := s.off
+	s.mu.Unlock()
+	return !off
+}
+
+// Blocked lists the parked threads that cannot be granted (waiting for a lock), as "name:op".
+func (s *Sched) Blocked() []string {
+	s.mu.Lock()
+	defer s.mu.Unlock()
+	var out []string
+	for n, p := range s.parked {
+		if p.enabled != nil && !p.enabled() {
+			out = append(out, n+" waiting for "+p.op)
+		}
+	}
+	sort.Strings(out)
+	return out
 }
 
 // Drain schedules parked threads until none is parked (everything is blocked on time or on channels).
@@ -95,8 +163,9 @@ func (s *Sched) Drain() int {
 	grants := 0
 	for {
 		synctest.Wait()
+		anyV := s.anyVirtual() // evaluated without holding s.mu (Enabled may ask the scheduler)
 		s.mu.Lock()
-		if len(s.parked) == 0 {
+		if len(s.parked) == 0 && !anyV {
 			s.mu.Unlock()
 			return grants
 		}
@@ -108,7 +177,24 @@ func (s *Sched) Drain() int {
 			if syncBusy && strings.HasPrefix(p.op, "send:") {
 				continue
 			}
+			if p.enabled != nil && !p.enabled() {
+				continue // waiting for a lock that is held
+			}
 			names = append(names, n)
+		}
+		s.mu.Unlock()
+		virt := map[string]*Virtual{}
+		for _, v := range s.Virtuals {
+			if v.Enabled() {
+				virt[v.Name] = v
+				names = append(names, v.Name)
+			}
+		}
+		s.mu.Lock()
+		if len(names) == 0 {
+			// everything parked is waiting (for a lock, or for the consumer): nothing can be granted now
+			s.mu.Unlock()
+			return grants
 		}
 		sort.Strings(names)
 		// canonical order: the thread that ran last first (continuing it is not a deviation)
@@ -120,9 +206,25 @@ func (s *Sched) Drain() int {
 			}
 		}
 		s.mu.Unlock()
+		if s.Interrupt != nil && s.Interrupt() {
+			s.Interrupted = true
+			return grants
+		}
 		k := 0
 		if len(names) > 1 && s.Choose != nil {
 			k = s.Choose(len(names), names)
+		}
+		if v, ok := virt[names[k]]; ok {
+			s.mu.Lock()
+			s.last = names[k]
+			s.Steps++
+			if len(s.Trace) < 400 {
+				s.Trace = append(s.Trace, names[k])
+			}
+			s.mu.Unlock()
+			v.Run()
+			grants++
+			continue
 		}
 		s.mu.Lock()
 		p := s.parked[names[k]]
@@ -151,4 +253,13 @@ func (s *Sched) Alive() []string {
 	}
 	sort.Strings(out)
 	return out
+}
+
+func (s *Sched) anyVirtual() bool {
+	for _, v := range s.Virtuals {
+		if v.Enabled() {
+			return true
+		}
+	}
+	return false
 }
